@@ -9,6 +9,7 @@ import (
 	"os"
 
 	"github.com/btcsuite/btcd/btcutil"
+	"github.com/btcsuite/btcd/btcutil/hdkeychain"
 	"github.com/btcsuite/btcwallet/waddrmgr"
 
 	"verif/internal/evid"
@@ -86,6 +87,29 @@ func walletConvert(r *evid.Run, dir string, cs int64) {
 			}
 		}
 	}
+	// an account import handed an extended PRIVATE key that carries the public
+	// version bytes (a caller that re-versioned its key and forgot to neuter it):
+	// whatever the wallet stores in the account's public slot is readable with the
+	// public passphrase alone, so this must be refused (and never handed back)
+	if rg.Intn(2) == 0 {
+		sd := make([]byte, 32)
+		rg.Read(sd)
+		if leg, _, _, err := oracle.AccountKey(sd, 84, 0, 0); err == nil && leg.Priv {
+			hd := hdkeychain.NewExtendedKey(params.HDPublicKeyID[:], leg.Key[:], leg.Chain[:], []byte{1, 2, 3, 4}, 3, oracle.H, true)
+			at := waddrmgr.WitnessPubKey
+			props, err := h.W.ImportAccount(fmt.Sprintf("unneutered-%d", rg.Intn(1e6)), hd, rg.Uint32(), &at)
+			log = append(log, fmt.Sprintf("ImportAccount(private key with public version bytes) -> %v", err))
+			r.Hit("c04-private-keys-offered-as-public-account-keys", 1)
+			if err == nil {
+				what := "ImportAccount accepted an extended private key that carries the public version bytes; the key is stored in the account's PUBLIC slot (sealed under the public passphrase only)"
+				if props != nil && props.AccountPubKey != nil && props.AccountPubKey.IsPrivate() {
+					what += ", and AccountProperties hands it back as a private key"
+				}
+				fail("c04:private-key-stored-as-public-material", what)
+				return
+			}
+		}
+	}
 	k2 := []uint32{0, k1, k1 + 1, k1 + 2}[rg.Intn(4)]
 	if err := h.W.InitAccounts(sm, true, k2); err != nil {
 		fail("c04:initaccounts-convert", err.Error())
@@ -147,6 +171,7 @@ func main() {
 	})
 	r.Parallel("walletconvert", r.N(16, 300), evid.Workers(), func(i int, cs int64) { walletConvert(r, dir, cs) })
 	r.Require("c04-wallet-level-conversions-checked", 10)
+	r.Require("c04-private-keys-offered-as-public-account-keys", 2)
 	r.Require("c04-images-scanned", 500)
 	r.Require("c04-lock-requests-during-a-root-manager-operation", 3)
 	r.Require("c04-writes-scanned", 5000)
